@@ -50,6 +50,14 @@ def corpora(seed, tier):
     for st in c["ch"] + c["cm"]:
         L = len(st.wire)
         st.segspec = "W;" + ("Z:1;" if L <= 1500 else "") + ("Z:%d;" % max(5, L // 100)) + "R:1"
+    # endpoint-initiated close (kind 'a'): own generator state, so the corpora above stay what they were
+    rng2 = random.Random(seed * 7919 + (17 if thorough else 13))
+    c["sa"] = g.appclose_corpus(rng2, "s", 800 if thorough else 60, "sa")
+    c["ca"] = g.appclose_corpus(rng2, "c", 400 if thorough else 40, "ca")
+    for st in c["sa"]:
+        g.seg_inproc(st, rng2, all_limit=1500 if thorough else 700, listed=200 if thorough else 90, multi=6 if thorough else 3)
+    for st in c["ca"]:
+        g.seg_socket(st, rng2, client=True)
     c["frame_specs"] = g.frame_cases(rng, 6000 if thorough else 700)
     c["frame_hostile"] = g.frame_hostile(rng)
     return c
@@ -225,22 +233,55 @@ def judge_valid(st, ob, mode):
     if err:
         v.append(("C18:%s:wire:malformed-frame-sent" % side, "the endpoint wrote bytes the reference codec rejects: %s" % err, dict(wire=ob["wire"][:200])))
     pongs = [f.payload for f in frames if f.opcode == g.OP_PONG]
-    exp_pongs = e.pongs if e.first_bad is None else e.pongs[:e.first_bad[1]]
+    own_close_at = None      # number of pings received before the endpoint sent its OWN close frame (1007 / application close)
+    if e.first_bad is None:
+        exp_pongs = e.pongs
+        if st.kind == "a":
+            own_close_at = st.pings_before_trigger
+    else:
+        stop_i, owed = e.first_bad
+        own_close_at = owed
+        # The endpoint answers a non-UTF-8 text message with Close 1007. If it then FAILS the connection
+        # (stops processing input, RFC 6455 7.1.7) nothing behind that message is judged. But an endpoint
+        # that still delivers messages that FOLLOW the bad one is still processing the peer's frames, has
+        # not received a Close, and owes a pong for every ping in front of the last message it delivered
+        # (5.5.2: a Ping is answered unless a Close was RECEIVED; sending one only forbids data frames).
+        later = [i for i, (t, p) in enumerate(e.msgs) if i > stop_i and t != "T!"]
+        tail = got[stop_i:]
+        if tail and tail[0] == exp[stop_i]:
+            tail = tail[1:]
+        m = 0
+        while m < len(tail) and m < len(later) and tail[m] == exp[later[m]]:
+            m += 1
+        if m:
+            owed = max(owed, e.pings_at_msg[later[m - 1]])
+        exp_pongs = e.pongs[:owed]
     # pongs for pings that follow the peer's close frame are tolerated (control frames may still be sent)
     got_pongs = pongs if (e.first_bad is None and e.close is None) else pongs[:len(exp_pongs)]
     if got_pongs != exp_pongs:
         i = 0
         while i < len(got_pongs) and i < len(exp_pongs) and got_pongs[i] == exp_pongs[i]:
             i += 1
+        after = own_close_at is not None and i >= own_close_at
         if i < len(got_pongs) and i < len(exp_pongs):
             v.append(("C18:%s:ping:pong-payload-mismatch" % side, "pong %d carries %d bytes %s, the ping carried %d bytes %s"
                       % (i, len(got_pongs[i]), got_pongs[i][:16].hex(), len(exp_pongs[i]), exp_pongs[i][:16].hex()), dict(index=i)))
         elif i == len(got_pongs):
-            v.append(("C18:%s:ping:pong-missing" % side, "ping %d of %d (%d payload bytes) was not answered (synced=%s eof=%s)"
-                      % (i, len(exp_pongs), len(exp_pongs[i]), ob["synced"], ob["eof"]), dict(index=i)))
+            if after:
+                v.append(("C18:%s:ping:pong-missing-after-own-close" % side,
+                          "ping %d of %d (%d payload bytes) was received after the %s had sent its own close frame (%s) and before any close frame of the peer, and was not answered; "
+                          "the %d ping(s) before the endpoint's close were answered (synced=%s eof=%s)"
+                          % (i, len(exp_pongs), len(exp_pongs[i]), side, "application sendClose(1000,'bye')" if st.kind == "a" else "1007, session kept, later messages still delivered",
+                             own_close_at, ob["synced"], ob["eof"]), dict(index=i, pings_before_own_close=own_close_at)))
+            else:
+                v.append(("C18:%s:ping:pong-missing" % side, "ping %d of %d (%d payload bytes) was not answered (synced=%s eof=%s)"
+                          % (i, len(exp_pongs), len(exp_pongs[i]), ob["synced"], ob["eof"]), dict(index=i)))
         else:
             v.append(("C18:%s:ping:unsolicited-pong" % side, "%d pong(s) more than pings were sent" % (len(got_pongs) - i), dict(index=i)))
     closes = [f for f in frames if f.opcode == g.OP_CLOSE]
+    if st.kind == "a" and (not closes or closes[0].payload != g.APP_CLOSE_PAYLOAD):
+        v.append(("C18:%s:close:application-close-frame-not-first" % side, "the application's sendClose(1000,'bye') is not the first close frame on the wire (%s)"
+                  % ([c.payload[:8].hex() for c in closes[:2]] or "no close frame at all"), {}))
     if e.close is not None and e.first_bad is None:
         if not closes:
             v.append(("C18:%s:close:no-close-reply" % side, "the peer's close frame was not answered with a close frame (synced=%s eof=%s)" % (ob["synced"], ob["eof"]), {}))
@@ -333,7 +374,7 @@ class Judge:
             if ob.get("harness") and not ob.get("dead"):
                 per_seg.append((seg, ob, [("__harness__", ob["harness"], {})]))
                 continue
-            vs = judge_valid(st, ob, mode) if st.kind in ("v", "u", "t") else judge_hostile(st, ob, mode, rec)
+            vs = judge_valid(st, ob, mode) if st.kind in ("v", "u", "t", "a") else judge_hostile(st, ob, mode, rec)
             per_seg.append((seg, ob, vs))
         seen = set()
         for seg, ob, vs in per_seg:
@@ -348,7 +389,7 @@ class Judge:
                 d.update(det)
                 out.append((key, what, d))
         # segmentation dependence (valid streams): same stream, different observable behaviour
-        if st.kind in ("v", "u", "t"):
+        if st.kind in ("v", "u", "t", "a"):
             side = "server" if st.side == "s" else "client"
             differs = False
             if mode == "client-socket":
@@ -619,12 +660,15 @@ def plan(ctx, bins, corp):
         cv = corp["cv"][: max(30, int(len(corp["cv"]) * scale))] + [s for s in corp["cv"][int(len(corp["cv"]) * scale):] if "directed" in s.features][:8]
         cm = corp["cm"][: max(15, int(len(corp["cm"]) * scale))]
         # server, in process: exact segmentations (all single cuts for small streams)
+        sa = corp["sa"][: max(30, int(len(corp["sa"]) * scale))]
+        ca = corp["ca"][: max(20, int(len(corp["ca"]) * scale))]
         shards += split_shards(fl, "server-inproc", sv, "sv", 10 if fl == "plain" else 6, valid_extra)
+        shards += split_shards(fl, "server-inproc", sa, "sa", 2, valid_extra)
         shards += split_shards(fl, "server-inproc", corp["sh"] + sm, "shm", 4, ["--wait-ms", 4000 * slow, "--short-wait-ms", 1000])
         # server over loopback
         rng = random.Random(ctx.seed * 77 + len(fl))
         nsock = max(24, int((600 if thorough else 60) * scale))
-        sock = [g.copy_for(s, g.seg_socket, rng, False) for s in sv[:nsock]]
+        sock = [g.copy_for(s, g.seg_socket, rng, False) for s in sv[:nsock] + sa[: max(12, nsock // 3)]]
         shards += split_shards(fl, "server-socket", sock, "ssv", 4 if fl == "plain" else 2, valid_extra)
         seen, sockh = set(), []
         for s in corp["sh"]:
@@ -635,7 +679,7 @@ def plan(ctx, bins, corp):
                 sockh.append(s2)
         shards += split_shards(fl, "server-socket", sockh, "ssh", 4 if fl == "plain" else 2, hostile_extra, timeout=600)
         # client over loopback
-        shards += split_shards(fl, "client-socket", cv, "cv", 8 if fl == "plain" else 4, valid_extra)
+        shards += split_shards(fl, "client-socket", cv + ca, "cv", 8 if fl == "plain" else 4, valid_extra)
         ch = corp["ch"]
         if fl != "plain" and not thorough:
             seen_c, ch = set(), []
@@ -667,7 +711,7 @@ def run(ctx):
     B = {f: bins[("c18_ws", f)] for f in set(flavors + race_flavors)}
     corp = corpora(ctx.seed, ctx.tier)
     by_id = {}
-    for k in ("sv", "sh", "sm", "cv", "ch", "cm"):
+    for k in ("sv", "sh", "sm", "cv", "ch", "cm", "sa", "ca"):
         for s in corp[k]:
             by_id[s.id] = s
 
@@ -860,7 +904,7 @@ def run(ctx):
             nsample += 1
         ctx.case(sig="%s|%s" % (sh.mode, st.sig()), sample=smp, n=rec["nseg"])
         ctx.obs("%s:segmentations_judged" % sh.mode, rec["nseg"])
-        ctx.obs("%s:%s_cases_judged" % (sh.mode, {"v": "valid", "u": "invalid_utf8", "t": "trailing_after_close", "h": "hostile", "m": "mutated"}[st.kind]))
+        ctx.obs("%s:%s_cases_judged" % (sh.mode, {"v": "valid", "u": "invalid_utf8", "t": "trailing_after_close", "h": "hostile", "m": "mutated", "a": "app_close"}[st.kind]))
         if "A" in st.segspec.split(";") and sh.mode == "server-inproc":
             ctx.obs("streams_with_every_single_cut_point")
         if rec.get("capped"):
@@ -873,6 +917,10 @@ def run(ctx):
                 ctx.obs("frames_len_" + f[4:].replace(">=", "ge").replace("<", "lt").replace("=", ""))
         if st.expect is not None and st.expect.pongs and st.kind != "h":
             ctx.obs("pings_expected_to_be_answered", len(st.expect.pongs))
+        if st.kind == "a":
+            ctx.obs("pings_received_after_own_close_expected_to_be_answered", len(st.expect.pongs) - st.pings_before_trigger)
+            if "data-received-after-own-close" in st.features:
+                ctx.obs("streams_with_data_received_after_own_close")
         for key, what, det in vs:
             if key == "__harness__":
                 ctx.inconcl("%s %s case %s: %s" % (sh.mode, sh.flavor, st.id, what))
@@ -897,7 +945,9 @@ def run(ctx):
         "over-allocation bound: single allocation <= 2 x max(configured maximum, bytes received) + 1 MiB (factor 2 = geometric growth of std::vector)",
         "buffering bound (server, maximum configured to 4096, input delivered in 4096-byte reads): live heap growth <= 4 x maximum + 128 KiB while 512 KiB arrive",
         "WebSocketClient has no configurable maximum: declared lengths that are merely huge are only judged there for exceptions and over-allocation",
-        "messages after the first non-UTF-8 text message of a stream, and what follows hostile bytes, are not judged (the endpoint may fail the connection there)",
+        "messages after the first non-UTF-8 text message of a stream, and what follows hostile bytes, are not judged (the endpoint may fail the connection there); but an endpoint that still "
+        "delivers messages behind its own 1007 close is still processing input and owes a pong for every ping in front of the last message it delivered",
+        "RFC 6455 5.5.2: every ping received before the PEER's close frame is answered with an equal-payload pong, also after the endpoint's own close frame (5.5.1 only forbids data frames)",
         "a verdict that depends on a wall-clock wait (lost sync) is only reported when the same key is reproduced by an isolated re-run with longer waits",
         "close races: a capture without the owed close frame is re-run once alone with 30 s bounds; EOF without a close frame, or a pong for the liveness probe without a close frame, is a violation; "
         "an open connection that returns nothing at all stays inconclusive",
@@ -912,7 +962,8 @@ def run(ctx):
                     "client-socket:recv_calls_shortened_by_shim", "client-socket:stream_joined_with_101",
                     *["race:%s:scenarios_with_sends_attempted_after_the_close_was_initiated" % k for k in RACE_KINDS],
                     "race:server:peer-close:close_frame_seen", "race:server:app-sendClose:close_frame_seen", "race:client:peer-close:close_frame_seen",
-                    "abandon:connections_dropped_mid_frame")
+                    "abandon:connections_dropped_mid_frame", "server-inproc:app_close_cases_judged", "server-socket:app_close_cases_judged",
+                    "client-socket:app_close_cases_judged", "pings_received_after_own_close_expected_to_be_answered")
     ctx.extra["corpora"] = {k: len(v) for k, v in corp.items()}
     ctx.extra["shards"] = len(shards)
 
@@ -944,7 +995,7 @@ def replay(ctx, path):
         judge_frames(ctx, rr, corp, flavor)
         return
     st = None
-    for k in ("sv", "sh", "sm", "cv", "ch", "cm"):
+    for k in ("sv", "sh", "sm", "cv", "ch", "cm", "sa", "ca"):
         for s in corp[k]:
             if s.id == d["stream"]:
                 st = s
